@@ -207,13 +207,14 @@ End EclRot.
 
 Theorem ecl_rotation l0 b0 eta pie p :
   let A := ecA l0 b0 eta pie in let B := ecB l0 b0 pie in let C := ecC l0 b0 eta pie in
-  uvec (p + pie - atan2 A B) (asin C) = Rz (p + pie) (Rx (- eta) (Rz (- pie) (uvec l0 b0))).
+  uvec (p + pie - atan2 A B) (atan2 C (sqrt (A * A + B * B)))
+  = Rz (p + pie) (Rx (- eta) (Rz (- pie) (uvec l0 b0))).
 Proof.
   intros A B C.
   replace (p + pie - atan2 A B) with (- atan2 A B + (p + pie)) by ring.
-  rewrite <- Rz_uvec. rewrite <- My_uvec. rewrite uvec_of_unit.
+  rewrite <- Rz_uvec. rewrite <- My_uvec. rewrite uvec_atan2_unit.
   - unfold My, A, B, C. rewrite <- ec_vec. reflexivity.
-  - pose proof (ec_unit l0 b0 eta pie). fold A B C in H. lra.
+  - apply ec_unit.
 Qed.
 
 (* ------------------------------------------------------------------ *)
@@ -361,7 +362,7 @@ Definition ecl_out (eta pie p l1 b1 : R) : R * R :=
   let A := ecA (d2r l1) (d2r b1) et pr in
   let B := ecB (d2r l1) (d2r b1) pr in
   let C := ecC (d2r l1) (d2r b1) et pr in
-  (red360 (r2d (pp + pr - atan2 A B)), red360 (r2d (asin C))).
+  (red360 (r2d (pp + pr - atan2 A B)), red360 (r2d (atan2 C (sqrt (A * A + B * B))))).
 
 Lemma pie_deg_cong pie : cong360 (pie_deg pie) (pie / 3600 + pi0_deg).
 Proof.
